@@ -670,3 +670,168 @@ def intergenic_read(src, sc, name):
 
 def unmapped_read(name, file=0):
     return {"n": name, "c": None, "p": -1, "cg": [], "f": 4, "q": 0, "file": file}
+
+
+# ----------------------------------------------------------------------------------------------- coverage templates
+
+BIN = 256
+
+
+def near_bin(src, lo_bin, hi_bin):
+    """a 0-based position 256*k + small offset (offset biased to the boundary)"""
+    k = src.int(lo_bin, hi_bin)
+    off = src.choice([-2, -1, 0, 1, 2, 0, 1, -1, src.int(3, 252)])
+    return max(0, k * BIN + off)
+
+
+def gen_deep_locus(src, with_annotation=True, max_reads=2500, chrom="chr1", extra_chrom=True):
+    """One chromosome with a read cluster that exceeds the splitting thresholds (>= 32768 bp and/or >= 1024 reads):
+    pile-ups joined by bridge reads, valleys of depth 0-3 at chosen bins, short tail reads placed relative to
+    256-bp bin boundaries (first/last bin of a sub-region), single-bin pile-ups."""
+    nseg = src.int(2, 4)
+    seg_gap_bins = [src.int(130, 170) for _ in range(nseg)]           # >= 128 bins between valley candidates
+    start_bin = src.int(2, 10)
+    reads = []
+    k = 0
+    pos_bin = start_bin
+    seg_starts = []
+    genes = []
+    overrides = []
+    total_budget = max_reads
+    deep = src.bool(0.7)
+    for si in range(nseg):
+        seg_start = pos_bin * BIN + src.choice([0, 1, 17, 200, 255])
+        seg_starts.append(seg_start)
+        n = src.int(220, 420) if deep and si == 0 else src.int(3, 60)
+        n = min(n, total_budget)
+        total_budget -= n
+        # a 3-exon gene under the pile-up
+        e1 = [seg_start + 50, seg_start + 350]
+        e2 = [seg_start + 900, seg_start + 1250]
+        e3 = [seg_start + 2000, seg_start + 2500]
+        chain = [[a + 1, b + 1] for a, b in (e1, e2, e3)]
+        strand = src.choice(["+", "-"])
+        genes.append({"id": "D%d" % si, "chr": chrom, "strand": strand, "canon": "canon",
+                      "transcripts": [{"id": "DT%d" % si, "exons": chain}]})
+        overrides += build.splice_overrides(chrom, chain, strand)
+        for _ in range(n):
+            k += 1
+            if src.bool(0.7):
+                blocks = [list(b) for b in chain]
+                blocks[0][0] += src.int(0, 40)
+                blocks[-1][1] -= src.int(0, 40)
+            else:
+                a = chain[0][0] + src.int(0, 200)
+                blocks = [[a, a + src.int(60, 90)]]
+            reads.append(R.make_read("d%d" % k, chrom, blocks, flag=16 if strand == "-" else 0,
+                                     mapq=src.choice([60, 60, 60, 30, 10, 3, 0])))
+        pos_bin += seg_gap_bins[si]
+    end_of_last = seg_starts[-1] + 2600
+    # bridges: reads with a long N joining consecutive segments; valley depth = number of bridges
+    for si in range(nseg - 1):
+        depth = src.int(1, 3)
+        for _ in range(depth):
+            k += 1
+            a = seg_starts[si] + 2000 + src.int(0, 300)
+            b = seg_starts[si + 1] + 60 + src.int(0, 200)
+            reads.append(R.make_read("b%d" % k, chrom, [[a + 1, a + 120], [b + 1, b + 130]], mapq=60))
+    # a long unspliced tail that stretches the cluster beyond the last pile-up up to a chosen bin boundary
+    tail_bins = src.int(0, 6)
+    cluster_end = end_of_last
+    if tail_bins:
+        k += 1
+        endp = (end_of_last // BIN + tail_bins) * BIN + src.choice([0, 1, 2, 128, 254, 255])
+        a = end_of_last - 300
+        reads.append(R.make_read("t%d" % k, chrom, [[a + 1, endp]], mapq=60))
+        cluster_end = endp
+    # short reads wholly inside the last bin(s) of the cluster / around sub-region borders
+    special = []
+    for _ in range(src.int(1, 4)):
+        k += 1
+        kind = src.choice(["last_bin", "last_bin", "border", "first_bin"])
+        if kind == "last_bin":
+            lb = (cluster_end - 1) // BIN
+            s0 = lb * BIN + src.choice([0, 1, 2, 5, 30])
+            e0 = min(cluster_end, s0 + src.int(20, 200))
+            if s0 >= e0 - 5:
+                s0 = max(lb * BIN, cluster_end - 40)
+                e0 = cluster_end
+        elif kind == "first_bin":
+            s0 = seg_starts[src.int(0, nseg - 1)] + src.int(0, 20)
+            e0 = s0 + src.int(30, 200)
+        else:
+            b = src.int(start_bin + 128, max(start_bin + 129, cluster_end // BIN))
+            s0 = b * BIN + src.choice([-40, -2, -1, 0, 1, 2])
+            e0 = s0 + src.int(20, 120)
+            if not any(R.cigar_blocks(r["p"], r["cg"])[0][0] - 1 <= s0 <= r["p"] + 10 ** 6 for r in reads):
+                pass
+        name = "s%d" % k
+        special.append(name)
+        reads.append(R.make_read(name, chrom, [[s0 + 1, max(s0 + 2, e0)]], flag=src.choice([0, 16]), mapq=60))
+    length = max(cluster_end, end_of_last) + src.int(700, 4000)
+    chroms = [[chrom, length, src.int(1, 10 ** 6)]]
+    sc = {"chroms": chroms, "genes": genes if with_annotation else [], "overrides": overrides, "reads": reads,
+          "nfiles": 1, "gtf": {"gene_records": True, "transcript_records": True}, "special": special,
+          "hidden_genes": [] if with_annotation else genes}
+    if extra_chrom and src.bool(0.5):
+        # a second, shallow chromosome
+        sc["chroms"].append(["chr2", 6000, src.int(1, 10 ** 6)])
+        for i in range(src.int(1, 5)):
+            k += 1
+            a = src.int(300, 4000)
+            sc["reads"].append(R.make_read("e%d" % k, "chr2", [[a, a + src.int(80, 400)]], mapq=60))
+    return sc
+
+
+def gen_plateau_locus(src, with_annotation=True, chrom="chr1"):
+    """Cluster split twice, the second split point being its *last* 256-bp bin: a small read group A, a bridge read
+    over 140 bins (first valley), then a pile-up B of 200-290 reads followed by 3-6 long-intron reads that keep the
+    coverage above 1 % of the maximum for more than 128 bins, one of them reaching into the last bin, and a short
+    read wholly inside that last bin."""
+    a_bin = src.int(2, 8)
+    a0 = a_bin * BIN + src.choice([0, 3, 100, 255])
+    reads = []
+    k = 0
+    for _ in range(src.int(2, 6)):
+        k += 1
+        s_ = a0 + src.int(0, 300)
+        reads.append(R.make_read("a%d" % k, chrom, [[s_ + 1, s_ + src.int(150, 400)]], mapq=60))
+    start_bin = a_bin + 140
+    s0 = start_bin * BIN + src.choice([0, 3, 100, 255])
+    k += 1
+    reads.append(R.make_read("bridge%d" % k, chrom, [[a0 + 101, a0 + 260], [s0 + 61, s0 + 200]], mapq=60))
+    n_pile = src.int(200, 290)
+    chain = [[s0 + 51, s0 + 351], [s0 + 901, s0 + 1251], [s0 + 2001, s0 + 2501]]
+    strand = src.choice(["+", "-"])
+    genes = [{"id": "D0", "chr": chrom, "strand": strand, "canon": "canon",
+              "transcripts": [{"id": "DT0", "exons": chain}]}]
+    overrides = build.splice_overrides(chrom, chain, strand)
+    for _ in range(n_pile):
+        k += 1
+        blocks = [list(b) for b in chain]
+        blocks[0][0] += src.int(0, 40)
+        blocks[-1][1] -= src.int(0, 40)
+        reads.append(R.make_read("d%d" % k, chrom, blocks, flag=16 if strand == "-" else 0, mapq=60))
+    last_bin = a_bin + 128 + src.int(131, 150)
+    nb = src.int(3, 6)
+    for i in range(nb):
+        k += 1
+        a = s0 + 2100 + src.int(0, 200)
+        if i == 0:
+            # reaches into the last bin
+            e = last_bin * BIN + src.choice([70, 100, 128, 200])
+        else:
+            e = (last_bin - 1) * BIN + src.int(100, 255) if i < 3 else (last_bin - src.int(1, 20)) * BIN + src.int(0, 255)
+        reads.append(R.make_read("b%d" % k, chrom, [[a + 1, a + 150], [e - 120, e + 1]], mapq=60))
+    special = []
+    for _ in range(src.int(1, 2)):
+        k += 1
+        s_ = last_bin * BIN + src.choice([1, 2, 3, 10, 60])
+        e_ = min(last_bin * BIN + 255, s_ + src.int(20, 180))
+        special.append("s%d" % k)
+        reads.append(R.make_read("s%d" % k, chrom, [[s_ + 1, e_]], flag=src.choice([0, 16]), mapq=60))
+    length = (last_bin + 1) * BIN + src.int(800, 3000)
+    return {"chroms": [[chrom, length, src.int(1, 10 ** 6)]], "genes": genes if with_annotation else [],
+            "overrides": overrides, "reads": reads, "nfiles": 1,
+            "gtf": {"gene_records": True, "transcript_records": True}, "special": special,
+            "hidden_genes": [] if with_annotation else genes}
